@@ -7,7 +7,7 @@
    cache slot __splink__df_concat_with_tf / __splink__df_predict / __splink__df_tf_<col> then points at a
    user-owned table; [CHandleByName]: a frame for an existing table), dropping a named table through a
    SplinkDataFrame, realtime compare_records.
-   [cop_safe fx] is the guard of the theorems: the caller never passes overwrite=True / force, does not
+   [cop_safe K fx] is the guard of the theorems: the caller never passes overwrite=True / force, does not
    itself change its input rows, debug mode is off, and the realtime cached-SQL path is used only on the
    repaired tree (fx715 fx = true, fix b2f0593c) - debug mode and the unrepaired cached path are the refuted
    finding classes below. *)
@@ -29,7 +29,7 @@ Section C18.
      safe history of any length *)
   Theorem C18_user_tables_untouched :
     forall inputs ver others tfcols params uid luid fx cs,
-      forallb (cop_safe fx) cs = true ->
+      forallb (cop_safe K fx) cs = true ->
       let s0 := cinit K inputs ver others tfcols params uid luid fx in
       forall l e, aget K keqb (st_db K s0) (PL K l) = Some e ->
                   aget K keqb (st_db K (crun K keqb hash s0 cs)) (PL K l) = Some e.
@@ -38,7 +38,7 @@ Section C18.
   (* ... and so does every table the caller registers on the way (lookups, new records, register_table) *)
   Theorem C18_registered_tables_untouched :
     forall inputs ver others tfcols params uid luid fx cs1 cs2,
-      forallb (cop_safe fx) (cs1 ++ cs2) = true ->
+      forallb (cop_safe K fx) (cs1 ++ cs2) = true ->
       let s0 := cinit K inputs ver others tfcols params uid luid fx in
       forall l e, aget K keqb (st_db K (crun K keqb hash s0 cs1)) (PL K l) = Some e ->
                   aget K keqb (st_db K (crun K keqb hash s0 (cs1 ++ cs2))) (PL K l) = Some e.
@@ -47,7 +47,7 @@ Section C18.
   (* registering under an existing name without overwrite is refused: nothing changes, in ANY state *)
   Theorem C18_register_refused :
     forall s name ver, amem K keqb (st_db K s) (PL K (LPlain name)) = true ->
-      cstep K keqb hash s (CRegisterTable name false ver) = (s, [Refused name]).
+      cstep K keqb hash s (CRegisterTable K name false ver) = (s, [Refused name]).
   Proof. intros. apply register_refused; auto. Qed.
 
   (* ... also when the requested name differs from an existing object only in letter case: DuckDB and SQLite resolve
@@ -55,14 +55,38 @@ Section C18.
   Theorem C18_register_refused_case_insensitive :
     forall s existing name ver,
       amem K keqb (st_db K s) (PL K (LPlain existing)) = true -> ci_eqb existing name = true ->
-      cstep K keqb hash s (CRegisterTable name false ver) = (s, [Refused name]).
+      cstep K keqb hash s (CRegisterTable K name false ver) = (s, [Refused name]).
   Proof. intros. eapply register_refused_ci; eauto. Qed.
 
-  (* dropping through Splink a table Splink did not create is refused (created_by_splink guard) *)
+  (* dropping through Splink a table Splink did not create is refused: [CDropTable name false] builds the frame
+     table_to_splink_dataframe(name, name) (created_by_splink = False) and goes through [drop_handle], whose check of that
+     flag refuses; conjunct 2 is the check itself, for any frame.  These two are one-step facts about the guard; the
+     history-level content is C18_only_splink_tables_are_droppable / C18_drop_frame_spares_foreign_tables below *)
   Theorem C18_drop_refused :
-    forall s, (forall name, cstep K keqb hash s (CDropTable name false) = (s, [Refused name])) /\
+    forall s, (forall name, cstep K keqb hash s (CDropTable K name false) = (s, [Refused name])) /\
               (forall h, h_cbs K h = false -> drop_handle K keqb s h = (s, [Refused (pbase K (h_phys K h))])).
   Proof. intros. split; [intros; apply drop_refused | intros; apply drop_handle_refused; auto]. Qed.
+
+  (* the invariant behind that guard: after any safe history, every frame Splink is willing to drop (created_by_splink =
+     True) points at a hashed table of Splink origin - never at a user's or caller's table ... *)
+  Theorem C18_only_splink_tables_are_droppable :
+    forall inputs ver others tfcols params uid luid fx cs,
+      forallb (cop_safe K fx) cs = true ->
+      let s := crun K keqb hash (cinit K inputs ver others tfcols params uid luid fx) cs in
+      forall key h, aget K keqb (st_cache K s) key = Some h -> h_cbs K h = true ->
+        is_hashed K (h_phys K h) = true /\
+        forall e, aget K keqb (st_db K s) (h_phys K h) = Some e -> e_origin e = Splink.
+  Proof. intros. eapply only_splink_tables_are_droppable; eauto. Qed.
+
+  (* ... so drop_table_from_database_and_remove_from_cache() on ANY frame Splink cached leaves every entry that is not of
+     Splink origin exactly as it was *)
+  Theorem C18_drop_frame_spares_foreign_tables :
+    forall inputs ver others tfcols params uid luid fx cs key,
+      forallb (cop_safe K fx) cs = true ->
+      let s := crun K keqb hash (cinit K inputs ver others tfcols params uid luid fx) cs in
+      forall p e, aget K keqb (st_db K s) p = Some e -> e_origin e <> Splink ->
+                  aget K keqb (st_db K (fst (cstep K keqb hash s (CDropFrame K key)))) p = Some e.
+  Proof. intros. eapply drop_frame_spares_foreign_tables; eauto. Qed.
 
   (* a table Splink reports as dropped is gone *)
   Theorem C18_dropped_is_gone :
@@ -73,9 +97,9 @@ Section C18.
      table of Splink origin is left, no hashed name is left, and every other entry is exactly as before *)
   Theorem C18_cleanup_exact :
     forall inputs ver others tfcols params uid luid fx cs,
-      forallb (cop_safe fx) cs = true ->
+      forallb (cop_safe K fx) cs = true ->
       let s := crun K keqb hash (cinit K inputs ver others tfcols params uid luid fx) cs in
-      forall c, c = COp DeleteTables \/ c = COp InvalidateCache ->
+      forall c, c = COp K DeleteTables \/ c = COp K InvalidateCache ->
         let s' := fst (cstep K keqb hash s c) in
         no_splink K keqb s' /\
         (forall l, aget K keqb (st_db K s') (PL K l) = aget K keqb (st_db K s) (PL K l)) /\
@@ -87,6 +111,8 @@ Print Assumptions C18_registered_tables_untouched.
 Print Assumptions C18_register_refused.
 Print Assumptions C18_register_refused_case_insensitive.
 Print Assumptions C18_drop_refused.
+Print Assumptions C18_only_splink_tables_are_droppable.
+Print Assumptions C18_drop_frame_spares_foreign_tables.
 Print Assumptions C18_dropped_is_gone.
 Print Assumptions C18_cleanup_exact.
 
@@ -95,12 +121,33 @@ Definition fxs (b : bool) : fixes := {| fx77 := true; fx716 := true; fx715 := b;
 Definition c0 (b : bool) : state KI :=
   cinit KI ["inp"] 0 [("customers", 0); ("blocked_with_cols", 0); ("r", 0)] ["first_name"; "surname"] 0 5 6 (fxs b).
 
+(* NAMESPACES (trusted, not proved).  User objects are modelled as [PL (LPlain name)], Splink's derived tables as
+   [PH templ (hash sql uid)]: distinct constructors, so a user table can look like a Splink name ("__splink__df_predict",
+   "__splink__df_concat_with_tf_0a1b2c3d4" are plain names in the model and in X) but can never BE the physical name
+   templ_<sha256(sql+uid)[:9]> that Splink computes later.  That a user object does not carry exactly such a name
+   (one chance in 16^9 per derived table, and the uid is drawn after the database exists) is an assumption of
+   C18_user_tables_untouched, stated here and in meta/C18.json; it is not a theorem.  What the model says if it is
+   violated (a User-origin entry under a hashed key) is shown by the next two examples: a cached pipeline returns the
+   user's table instead of computing (table_exists_in_database fallback, the table is NOT damaged), an uncached
+   pipeline (use_cache=False) does DROP TABLE IF EXISTS + CREATE and replaces it. *)
+Definition predict_tree0 : sqlt :=
+  Cte PREDICT 0 [Mat (Cte BLOCKED 0 [Mat (cwtf_tree KI keqbI (c0 true))]); Mat (cwtf_tree KI keqbI (c0 true))].
+Definition c0_collision : state KI :=
+  set_db KI (c0 true) (aset KI keqbI (st_db KI (c0 true)) (PH KI PREDICT (hashI predict_tree0 5))
+                            {| e_prov := PInput "user_table_named_like_the_hash" 0; e_origin := User |}).
+Example C18_hashed_name_collision_cached_pipeline_reads_user_table :
+  let s := crun KI keqbI hashI c0_collision [COp KI Predict] in
+  aget KI keqbI (st_db KI s) (PH KI PREDICT (hashI predict_tree0 5))
+  = Some {| e_prov := PInput "user_table_named_like_the_hash" 0; e_origin := User |}.
+Proof. vm_compute. reflexivity. Qed.
+
+
 (* DESIGN 7.11: in debug mode every CTE becomes a physical table under its templated name and the cache is
    cleared after each pipeline, so the tables survive the cleanup call (confirmed on the real code) *)
 Theorem C18_cleanup_exact_refuted_debug_leak :
-  exists cs, let s := crun KI keqbI hashI (c0 true) (cs ++ [COp DeleteTables]) in
+  exists cs, let s := crun KI keqbI hashI (c0 true) (cs ++ [COp KI DeleteTables]) in
              7 <= List.length (splink_tables KI s).
-Proof. exists [COp (SetDebug true); COp Predict]. vm_compute. repeat constructor. Qed.
+Proof. exists [COp KI (SetDebug true); COp KI Predict]. vm_compute. repeat constructor. Qed.
 Print Assumptions C18_cleanup_exact_refuted_debug_leak.
 
 (* ... and CTE names without the __splink__ prefix become physical names: the user's table
@@ -109,7 +156,7 @@ Theorem C18_user_tables_untouched_refuted_debug_clobber :
   exists cs l e, aget KI keqbI (st_db KI (c0 true)) (PL KI l) = Some e /\
                  aget KI keqbI (st_db KI (crun KI keqbI hashI (c0 true) cs)) (PL KI l) <> Some e.
 Proof.
-  exists [COp (SetDebug true); COp Predict], (LPlain "blocked_with_cols"),
+  exists [COp KI (SetDebug true); COp KI Predict], (LPlain "blocked_with_cols"),
          {| e_prov := PInput "blocked_with_cols" 0; e_origin := User |}.
   split; [vm_compute; reflexivity|]. intros H. vm_compute in H. discriminate H.
 Qed.
@@ -117,22 +164,22 @@ Print Assumptions C18_user_tables_untouched_refuted_debug_clobber.
 
 (* DESIGN 7.15: the realtime cached-SQL path creates its result table untracked (unrepaired tree) *)
 Theorem C18_cleanup_exact_refuted_realtime_cached_path :
-  exists cs, let s := crun KI keqbI hashI (c0 false) (cs ++ [COp DeleteTables]) in
+  exists cs, let s := crun KI keqbI hashI (c0 false) (cs ++ [COp KI DeleteTables]) in
              splink_tables KI s <> [].
-Proof. exists [CRealtime false; CRealtime true]. cbv zeta. intros H. vm_compute in H. discriminate H. Qed.
+Proof. exists [CRealtime KI false; CRealtime KI true]. cbv zeta. intros H. vm_compute in H. discriminate H. Qed.
 Print Assumptions C18_cleanup_exact_refuted_realtime_cached_path.
 (* with the table tracked (repaired tree) the same history is inside the guard, so C18_cleanup_exact applies *)
 Example C18_realtime_cached_path_guard :
-  forallb (cop_safe (fxs true)) [CRealtime false; CRealtime true] = true /\
-  forallb (cop_safe (fxs false)) [CRealtime false; CRealtime true] = false.
+  forallb (cop_safe KI (fxs true)) [CRealtime KI false; CRealtime KI true] = true /\
+  forallb (cop_safe KI (fxs false)) [CRealtime KI false; CRealtime KI true] = false.
 Proof. split; reflexivity. Qed.
 Example C18_realtime_cached_path_repaired :
-  splink_tables KI (crun KI keqbI hashI (c0 true) [CRealtime false; CRealtime true; COp DeleteTables]) = [].
+  splink_tables KI (crun KI keqbI hashI (c0 true) [CRealtime KI false; CRealtime KI true; COp KI DeleteTables]) = [].
 Proof. vm_compute. reflexivity. Qed.
 
 (* overwrite=True and force are the caller's explicit requests to destroy a table: outside the guard *)
 Example C18_overwrite_replaces :
-  aget KI keqbI (st_db KI (crun KI keqbI hashI (c0 true) [CRegisterTable "customers" true 9])) (PL KI (LPlain "customers"))
+  aget KI keqbI (st_db KI (crun KI keqbI hashI (c0 true) [CRegisterTable KI "customers" true 9])) (PL KI (LPlain "customers"))
   = Some {| e_prov := PInput "customers" 9; e_origin := Caller |}.
 Proof. vm_compute. reflexivity. Qed.
 
@@ -140,25 +187,25 @@ Proof. vm_compute. reflexivity. Qed.
    (the created_by_splink guards of _drop_stale_df_concat_with_tf, delete_tables_created_by_splink_from_db,
    drop_table_from_database_and_remove_from_cache); instance of C18_user_tables_untouched *)
 Example C18_slot_pointing_at_user_table :
-  let cs := [CRegisterByName SlotCwtf "customers"; COp Predict; COp (RegisterTF "first_name" 1);
-             CRegisterByName (SlotTf "surname") "r"; CRegisterByName SlotPredict "customers"; COp (Cluster 0);
-             CDropTable "customers" false; COp DeleteTables; COp InvalidateCache] in
-  forallb (cop_safe (fxs true)) cs = true /\
+  let cs := [CRegisterByName KI SlotCwtf "customers"; COp KI Predict; COp KI (RegisterTF "first_name" 1);
+             CRegisterByName KI (SlotTf "surname") "r"; CRegisterByName KI SlotPredict "customers"; COp KI (Cluster 0);
+             CDropTable KI "customers" false; COp KI DeleteTables; COp KI InvalidateCache] in
+  forallb (cop_safe KI (fxs true)) cs = true /\
   aget KI keqbI (st_db KI (crun KI keqbI hashI (c0 true) cs)) (PL KI (LPlain "customers"))
   = Some {| e_prov := PInput "customers" 0; e_origin := User |}.
 Proof. split; vm_compute; reflexivity. Qed.
 Example C18_case_insensitive_names :
   ci_eqb "people" "PEOPLE" = true /\ ci_eqb "Customer_View" "customer_view" = true /\ ci_eqb "people" "peoples" = false /\
-  fst (cstep KI keqbI hashI (c0 true) (CRegisterTable "CUSTOMERS" false 3)) = c0 true.
+  fst (cstep KI keqbI hashI (c0 true) (CRegisterTable KI "CUSTOMERS" false 3)) = c0 true.
 Proof. repeat split; vm_compute; reflexivity. Qed.
 
 (* ------------------------------------------------------------------ non-vacuity *)
-Definition example_catalog_history : list cop :=
-  [COp Predict; CRegisterTable "caller_t1" false 1; CRegisterTable "customers" false 2; CDropTable "r" false;
-   COp (RegisterTF "first_name" 1); COp FindMatches; COp (CompareTwo false); CRealtime false; CRealtime true; COp (Cluster 0);
-   COp AccuracyColumn; COp (EstimateMColumn 5); COp (GraphMetrics 0); COp Unlinkables;
-   COp (EstimateU 1 1); COp (EstimateEM 0 2); COp DeleteTables; COp Predict; COp InvalidateCache].
-Example C18_example_guard : forallb (cop_safe (fxs true)) example_catalog_history = true.
+Definition example_catalog_history : list (cop KI) :=
+  [COp KI Predict; CRegisterTable KI "caller_t1" false 1; CRegisterTable KI "customers" false 2; CDropTable KI "r" false;
+   COp KI (RegisterTF "first_name" 1); COp KI FindMatches; COp KI (CompareTwo false); CRealtime KI false; CRealtime KI true; COp KI (Cluster 0);
+   COp KI AccuracyColumn; COp KI (EstimateMColumn 5); COp KI (GraphMetrics 0); COp KI Unlinkables;
+   COp KI (EstimateU 1 1); COp KI (EstimateEM 0 2); COp KI DeleteTables; COp KI Predict; COp KI InvalidateCache].
+Example C18_example_guard : forallb (cop_safe KI (fxs true)) example_catalog_history = true.
 Proof. vm_compute. reflexivity. Qed.
 (* the history creates Splink tables (so the cleanup theorems are not about an empty catalog) *)
 Example C18_example_creates_tables :
